@@ -242,6 +242,27 @@ func (c *Capture) SplitDatagrams() int {
 	return n
 }
 
+// SplitPairs lists, for every fragmented datagram whose two fragments lie in different capture files, the file
+// of the fragment captured first and the file of the fragment captured second.
+func (c *Capture) SplitPairs() [][2]int {
+	file := map[[2]int]int{}
+	var out [][2]int
+	for _, p := range c.Packets {
+		if p.FragPart == 0 {
+			continue
+		}
+		k := [2]int{p.Conv, int(p.FragID)}
+		if f, ok := file[k]; ok {
+			if f != p.File {
+				out = append(out, [2]int{f, p.File})
+			}
+		} else {
+			file[k] = p.File
+		}
+	}
+	return out
+}
+
 func (c *Capture) Owner(r PktRef) (int, bool) {
 	i, ok := c.owner[r]
 	return i, ok
